@@ -338,6 +338,31 @@ def t_cache_inputs(eng):
             and ast.unparse(x.targets[0]).endswith('.zins')]
     eng.oblige(n + 'insulation-cache-value-has-no-frequency-input',
                len(ztxt) == 1 and not any(w in ztxt[0] for w in ('omg', 'fhz', ' f ', 'self.f')), detail=str(ztxt))
+    # whatever the constructor (or any other method of Mininec outside the compute / request functions) stores from a
+    # frequency-derived attribute must also be assigned by the frequency setter -- otherwise it keeps the value of the
+    # frequency the object was built with
+    setter = [q for q in cg.funcs if q.startswith('Mininec.f') and 'setter' in q]
+    set_attrs = set()
+    for q in setter:
+        for x in ast.walk(cg.funcs[q]):
+            if isinstance(x, ast.Attribute) and isinstance(x.ctx, ast.Store) and ast.unparse(x.value) == 'self':
+                set_attrs.add(x.attr)
+    derived = set_attrs | {'f'}
+    stale = []
+    recomputed_each_call = ('Mininec.compute', 'Mininec.compute_')
+    for q, node in cg.funcs.items():
+        if not q.startswith('Mininec.') or q in setter or q.startswith(recomputed_each_call):
+            continue
+        for x in ast.walk(node):
+            if isinstance(x, ast.Assign):
+                tg = [t for t in x.targets if isinstance(t, ast.Attribute) and ast.unparse(t.value) == 'self']
+                reads_f = [t.attr for t in ast.walk(x.value) if isinstance(t, ast.Attribute) and ast.unparse(t.value) == 'self'
+                           and t.attr in derived]
+                for t in tg:
+                    if reads_f and t.attr not in set_attrs:
+                        stale.append((q, t.attr, sorted(set(reads_f))))
+    eng.oblige(n + 'nothing-derived-from-the-frequency-is-stored-outside-the-setter-and-the-compute-functions', bool(setter) and not stale,
+               detail=str(stale[:4]))
     # Medium.impedance must stay uncached (it depends on f)
     eng.oblige(n + 'Medium.impedance-is-not-cached', 'Medium.impedance' not in full_inventory(eng.repo, eng.fn_override))
     eng.cover('cache-inputs')
